@@ -68,11 +68,18 @@ def _slots_finder(clazz, fields_set):
     :param clazz: Class to analyze
     :param fields_set: Set where to store __slots___ content
     """
-    # ... class level
+    # ... class level (only the slots declared by this class: the inherited
+    # ones are handled with the parent classes, under their own name)
     try:
-        fields_set.update(clazz.__slots__)
-    except AttributeError:
+        slots = clazz.__dict__["__slots__"]
+    except (AttributeError, KeyError):
         pass
+    else:
+        for slot in slots:
+            if slot.startswith("__") and not slot.endswith("__"):
+                # Private slot: its real name is mangled with the class name
+                slot = "_{0}{1}".format(clazz.__name__.lstrip("_"), slot)
+            fields_set.add(slot)
 
     # ... parent classes level
     for base_class in clazz.__bases__:
